@@ -108,6 +108,14 @@ def load_known() -> Optional[Set[str]]:
         return None
 
 
+def load_known_full() -> Dict[str, Dict]:
+    try:
+        f = json.load(open(KNOWN_FILE))["functions"]
+        return f if isinstance(f, dict) else {}
+    except Exception:
+        return {}
+
+
 def _is_generator(fn: ast.AST) -> bool:
     for n in ast.walk(fn):
         if isinstance(n, (ast.Yield, ast.YieldFrom)):
